@@ -491,7 +491,9 @@ pub fn c06(tier: &str, seed: u64, meta: &str) -> Report {
             if phonetic {
                 // now and then a word that starts with escape characters (they display as nothing on their own)
                 // ... and an emoticon (a composition of punctuation only, with several candidates)
-                let t = if rng.chance(1, 8) { format!("{}{}", ["`", "``", "`"][rng.below(3)], ["a", "k", "ka", ""][rng.below(4)]) }
+                // ... and words in which the escape character silences a vowel ("o`" displays as nothing although it is
+                // not made of escape characters only)
+                let t = if rng.chance(1, 4) { format!("{}{}", ["`", "``", "o`", "o`", "`o`", "o`o`"][rng.below(6)], ["a", "k", "ka", "", "x", "o"][rng.below(6)]) }
                     else if rng.chance(1, 6) { rng.pick(&fpr.p.emoticons).clone() }
                     else { word_pool(&fpr.p, rng, 1).pop().unwrap_or_else(|| "ami".into()) };
                 let t = if fpr.p.typeable(&t) { t } else { ";)".to_string() };
